@@ -16,6 +16,7 @@ mod seq;
 mod kbiso;
 mod sweep;
 mod tablecheck;
+mod framepairs;
 use gen_keys::{key_index, ALL_KEYS};
 
 pub fn guard<T>(f: impl FnOnce() -> T) -> Option<T> {
@@ -793,6 +794,7 @@ fn main() {
         ("replay", Some("kbd")) => kbiso::replay(&args[3]),
         ("replay", _) => replay(&args[2..]),
         ("kbiso", _) => kbiso::main(&args[2..]),
+        ("framepairs", _) => framepairs::main(&args[2..]),
         ("tablecheck", _) => tablecheck::main(&args[2..]),
         ("findpanic", _) => {
             let mut o = findpanic_ps2(3_000_000);
